@@ -568,6 +568,14 @@ func ruleSlot(c *Ctx) {
 		"grpcmux.GRPCServerMuxer.knockCh":      "AcceptKnock must be able to leave its token before the muxer's Accept loop reads it",
 		"grpcmux.blockedClientListener.waitCh": "unblock() is called with acceptMutex held and must not wait for the listener's Accept",
 	}
+	// rendezvous channels: Send() offers its request in a select against the
+	// quit channel and then waits for the reply. With a buffered request channel
+	// the offer can succeed after the pump goroutine has gone (both arms ready,
+	// Go picks at random), and the caller waits for a reply that never comes.
+	wantZero := map[string]string{
+		"gRPCBrokerServer.send":     "request hand-off to the stream pump (plugin side)",
+		"gRPCBrokerClientImpl.send": "request hand-off to the stream pump (host side)",
+	}
 	found := map[string]int{}
 	for _, f := range p.Funcs {
 		info := f.Pkg.TypesInfo
@@ -585,6 +593,36 @@ func ruleSlot(c *Ctx) {
 				return true
 			}
 			name := p.FieldName(fv)
+			whyZ, isZ := wantZero[name]
+			if !isZ {
+				// the same channel moved into a shared helper type: recognised by
+				// its element type (the request record that carries the reply channel)
+				if ch, isCh := fv.Type().Underlying().(*types.Chan); isCh && strings.HasSuffix(ch.Elem().String(), ".sendErr") {
+					whyZ, isZ = "request hand-off to the stream pump", true
+					for k := range wantZero {
+						found[k]++
+					}
+				}
+			}
+			if isZ {
+				found[name]++
+				construct := "capacity of " + name
+				call, isC := ast.Unparen(kv.Value).(*ast.CallExpr)
+				zero := false
+				if isC && p.CalleeName(f, call) == "builtin.make" {
+					if len(call.Args) == 1 {
+						zero = true
+					} else if n, isN := constInt(info, call.Args[1]); isN && n == 0 {
+						zero = true
+					}
+				}
+				if zero {
+					c.R.Hold("R-SLOT", p.Pos(kv), f.Name, construct, "unbuffered (rendezvous)", true)
+				} else {
+					c.R.Violate("R-SLOT", p.Pos(kv), f.Name, construct, "the "+whyZ+" is buffered: after the broker stream has ended (plugin died) Send can still deposit a request that nobody will answer instead of seeing the closed quit channel, so the caller (Accept, knock) blocks forever", nil)
+				}
+				return true
+			}
 			why, isWanted := want[name]
 			if !isWanted {
 				return true
@@ -608,6 +646,11 @@ func ruleSlot(c *Ctx) {
 	}
 	// every such field must be initialised by a literal (no other stores)
 	for name := range want {
+		if found[name] == 0 {
+			c.R.Undecided("R-SLOT", "", name, "no composite-literal initialisation of this channel field found")
+		}
+	}
+	for name := range wantZero {
 		if found[name] == 0 {
 			c.R.Undecided("R-SLOT", "", name, "no composite-literal initialisation of this channel field found")
 		}
